@@ -46,7 +46,8 @@ func pkt(w, i, size int) []byte {
 	return b
 }
 
-// sessMsg builds a protobuf message whose encoding has exactly `size` bytes (0, or >= 2).
+// sessMsg builds a protobuf message whose encoding has exactly `size` bytes (0, or >= 3;
+// scenarios use distinct sizes/payloads so that every message is identifiable).
 func sessMsg(w, i, size int) *peer.SignedMsg {
 	if size == 0 {
 		return &peer.SignedMsg{}
@@ -276,18 +277,18 @@ func scenarios(quick bool) []scen {
 		{"pc/corrupt7@1/explore", "pc", [][]int{{2, 3, 1}}, 6, bytepipe.Explore, 7, 1},
 		{"pc/corruptffffffff@0/full", "pc", [][]int{{2, 1}}, 6, bytepipe.Full, 0xffffffff, 0},
 		{"sess/1w-4,0,6/explore", "sess", [][]int{{4, 0, 6}}, 0, bytepipe.Explore, -1, 0},
-		{"sess/2w-6+2,4/full", "sess", [][]int{{6}, {2, 4}}, 0, bytepipe.Full, -1, 0},
+		{"sess/2w-6+3,4/full", "sess", [][]int{{6}, {3, 4}}, 0, bytepipe.Full, -1, 0},
 		{"sess/1w-3,5/onebyte", "sess", [][]int{{3, 5}}, 0, bytepipe.OneByte, -1, 0},
-		{"sess/corrupt7@1/explore", "sess", [][]int{{2, 3, 4}}, 0, bytepipe.Explore, 7, 1},
-		{"sess/corrupt0@1/full", "sess", [][]int{{2, 3, 4}}, 0, bytepipe.Full, 0, 1},
+		{"sess/corrupt7@1/explore", "sess", [][]int{{5, 3, 4}}, 0, bytepipe.Explore, 7, 1},
+		{"sess/corrupt0@1/full", "sess", [][]int{{5, 3, 4}}, 0, bytepipe.Full, 0, 1},
 	}
 	if !quick {
 		s = append(s,
 			scen{"pc/2w-1,6+5,2/buf6/explore", "pc", [][]int{{1, 6}, {5, 2}}, 6, bytepipe.Explore, -1, 0},
 			scen{"pc/1w-6,6,6/buf6/explore", "pc", [][]int{{6, 6, 6}}, 6, bytepipe.Explore, -1, 0},
 			scen{"pc/corruptffffffff@2/explore", "pc", [][]int{{1, 2, 3}}, 6, bytepipe.Explore, 0xffffffff, 2},
-			scen{"sess/2w-6,0+2,4/explore", "sess", [][]int{{6, 0}, {2, 4}}, 0, bytepipe.Explore, -1, 0},
-			scen{"sess/corruptffffffff@0/explore", "sess", [][]int{{2, 3}}, 0, bytepipe.Explore, 0xffffffff, 0},
+			scen{"sess/2w-6,0+3,4/explore", "sess", [][]int{{6, 0}, {3, 4}}, 0, bytepipe.Explore, -1, 0},
+			scen{"sess/corruptffffffff@0/explore", "sess", [][]int{{5, 3}}, 0, bytepipe.Explore, 0xffffffff, 0},
 		)
 	}
 	return s
